@@ -79,8 +79,71 @@ Section Theorems.
     scc_stable content_of view_of imports probes sccs_of ign_of pkg_of parent_of c o fs = true ->
     SccFresh content_of view_of imports probes sccs_of ign_of pkg_of parent_of c o fs.
   Proof. exact (scc_stable_sound content_of view_of imports probes sccs_of ign_of pkg_of parent_of). Qed.
+  (* the two side conditions of findings F6 and F7 are characterised EXACTLY: the boolean functions decide them (iff), and a
+     failure is precisely a concrete witness in the cache - for F6 a module with a reused entry that probes a name which IS a
+     module of the build now and is not among the entry's recorded dependencies (the probe's result changed since the entry
+     was written); for F7 a module with a reused entry that is seen differently (text or .py/.pyi kind) than at the stamp the
+     entry records *)
+  Theorem probe_fresh_iff : forall c o fs, Proofs.FSOK fs ->
+    (probe_fresh content_of view_of probes ign_of c o fs = true <-> ProbeFresh content_of view_of probes ign_of c o fs).
+  Proof.
+    exact (fun c o fs H => conj (probe_fresh_sound content_of view_of probes ign_of c o fs)
+                                (probe_fresh_complete content_of view_of imports probes implicits ign_of pkg_of parent_of blocker c o fs H)).
+  Qed.
+  Theorem F6_exact : forall c o fs, Proofs.FSOK fs ->
+    (~ ProbeFresh content_of view_of probes ign_of c o fs <->
+     exists m s e x d, In (m, s) fs /\ load_meta content_of ign_of c o fs m = Some (e, x) /\
+                       In d (probes m (view_of m s) o) /\ inG fs d = true /\ ~ In d (m_deps e)).
+  Proof. exact (F6_exact_lemma content_of view_of imports probes implicits ign_of pkg_of parent_of blocker). Qed.
+  Theorem kind_stable_iff : forall c o fs, Proofs.FSOK fs ->
+    (kind_stable content_of view_of ign_of c o fs = true <-> KindStable content_of view_of ign_of c o fs).
+  Proof.
+    exact (fun c o fs H => conj (kind_stable_sound content_of view_of ign_of c o fs)
+                                (kind_stable_complete content_of view_of imports probes implicits ign_of pkg_of parent_of blocker c o fs H)).
+  Qed.
+  Theorem F7_exact : forall c o fs, Proofs.FSOK fs ->
+    (~ KindStable content_of view_of ign_of c o fs <->
+     exists m s e x, In (m, s) fs /\ load_meta content_of ign_of c o fs m = Some (e, x) /\
+                     view_of m (m_stamp e) <> view_of m s).
+  Proof. exact (F7_exact_lemma content_of view_of imports probes implicits ign_of pkg_of parent_of blocker). Qed.
+  (* F11 exactly: SccFresh fails iff some SCC of the current graph has a valid meta for every member and one of those entries
+     was written by an analysis call on a different member set (a cycle was shrunk, grown or re-formed without the remaining
+     members being invalidated) *)
+  Theorem scc_stable_iff : forall c o fs,
+    (scc_stable content_of view_of imports probes sccs_of ign_of pkg_of parent_of c o fs = true <->
+     SccFresh content_of view_of imports probes sccs_of ign_of pkg_of parent_of c o fs).
+  Proof.
+    exact (fun c o fs => conj (scc_stable_sound content_of view_of imports probes sccs_of ign_of pkg_of parent_of c o fs)
+                              (scc_stable_complete content_of view_of imports probes sccs_of ign_of pkg_of parent_of c o fs)).
+  Qed.
+  Theorem F11_exact : forall c o fs,
+    (~ SccFresh content_of view_of imports probes sccs_of ign_of pkg_of parent_of c o fs <->
+     exists S m e x, In S (sccs_of (depmap content_of view_of imports probes ign_of pkg_of parent_of c o fs)) /\
+                     (forall m', In m' S -> load_meta content_of ign_of c o fs m' <> None) /\
+                     In m S /\ load_meta content_of ign_of c o fs m = Some (e, x) /\
+                     ~ (forall y, In y (m_scc e) <-> In y S)).
+  Proof. exact (F11_exact_lemma content_of view_of imports probes sccs_of ign_of pkg_of parent_of). Qed.
+  (* two side conditions discharged for sub-classes: programs without `from pkg import maybe_submodule` never violate
+     ProbeFresh (F6 cannot occur); and if what the analysis sees of a file were determined by what is hashed (the repair of
+     F7: make the kind .py/.pyi part of the hash / of the comparison in validate_meta) KindStable would hold for every cache
+     satisfying the invariant (F7 could not occur) *)
+  Theorem ProbeFresh_when_no_probes : (forall m v o, probes m v o = []) ->
+    forall c o fs, ProbeFresh content_of view_of probes ign_of c o fs.
+  Proof. exact (ProbeFresh_noprobes content_of view_of probes ign_of). Qed.
+  Theorem KindStable_when_hash_determines_view :
+    (forall m s s', content_of m s = content_of m s' -> view_of m s = view_of m s') ->
+    forall c o fs, CacheOK c -> KindStable content_of view_of ign_of c o fs.
+  Proof. exact (p_KindStable_if_hash_determines_view content_of view_of imports probes implicits analyze reach thash ign_of blocker). Qed.
 End Theorems.
 
+Print Assumptions ProbeFresh_when_no_probes.
+Print Assumptions KindStable_when_hash_determines_view.
+Print Assumptions scc_stable_iff.
+Print Assumptions F11_exact.
+Print Assumptions probe_fresh_iff.
+Print Assumptions F6_exact.
+Print Assumptions kind_stable_iff.
+Print Assumptions F7_exact.
 Print Assumptions run_preserves_CacheOK.
 Print Assumptions warm_eq_cold.
 Print Assumptions warm_eq_cold_all_histories_partial.
@@ -89,6 +152,12 @@ Print Assumptions probe_fresh_decides.
 Print Assumptions kind_stable_decides.
 Print Assumptions implicit_stable_decides.
 Print Assumptions scc_stable_decides.
+
+(* the hypothesis of KindStable_when_hash_determines_view is satisfiable (view = content) *)
+Example hash_determines_view_satisfiable :
+  forall (m : modid) (s s' : stamp), (fun (_ : modid) (x : stamp) => x / 2) m s = (fun (_ : modid) (x : stamp) => x / 2) m s' ->
+                                     (fun (_ : modid) (x : stamp) => x / 2) m s = (fun (_ : modid) (x : stamp) => x / 2) m s'.
+Proof. auto. Qed.
 
 (* ------------------------------------------------------------------ instances *)
 (* a stamp s encodes (text, kind): text = s / 2, kind = s mod 2 (0 = .py, 1 = .pyi); the analysis sees the whole stamp *)
